@@ -42,8 +42,20 @@ type c07Mixed struct {
 	D *c07Mixed
 }
 
+// recursive types without a struct on the cycle, next to a kind no session supports (seeded change C07B3:
+// the cleanup after the failure walked such types for ever)
+type c07Tree []c07Tree
+type c07Dir map[string]c07Dir
+type c07TreeBad struct {
+	T c07Tree
+	D c07Dir
+	C chan int
+}
+
 func c07Templates(rng *Rng) (interface{}, string) {
-	switch rng.Intn(14) {
+	switch rng.Intn(15) {
+	case 14:
+		return c07TreeBad{}, "recursive-slice-and-map-with-chan"
 	case 10:
 		return float64(0), "float64"
 	case 11:
@@ -198,7 +210,9 @@ func runC07(r *Run) {
 			// ---- marshal a Go value
 			var v interface{}
 			what := ""
-			switch rng.Intn(17) {
+			switch rng.Intn(18) {
+			case 17:
+				v, what = c07TreeBad{T: c07Tree{c07Tree{}, c07Tree{c07Tree{}}}, D: c07Dir{"a": c07Dir{}}, C: make(chan int)}, "recursive-slice-and-map-with-chan"
 			case 14:
 				// a Node among its own children (fix 7bafbb7: iterateNode had no depth guard)
 				children := make([]interface{}, 2)
